@@ -157,7 +157,10 @@ impl C01 {
             let c = cur::zstd_compress(f);
             match &c {
                 Out::Ok(cb) => {
-                    let d = cur::zstd_decompress(cb, exp.len() + 64);
+                    // capacity = size of the intermediate form inside THIS frame (not of a second expansion,
+                    // which only equals it if the library is deterministic - that is C14's verdict)
+                    let inner = zstd::stream::decode_all(&cb[..]).map(|v| v.len()).unwrap_or(exp.len());
+                    let d = cur::zstd_decompress(cb, inner.max(exp.len()) + 64);
                     match &d {
                         Out::Ok(v) if v[..] == f[..] => {}
                         other => {
